@@ -11,6 +11,7 @@ VERIF="$(cd "$(dirname "$0")/.." && pwd)"
 W="$(mktemp -d /tmp/mut.XXXXXX)"
 trap 'rm -rf "$W"' EXIT
 rsync -a --exclude .git --exclude .coverage --exclude coverage.xml "${SRC_REPO:-/repo}/" "$W/repo/"
+[ -s "$PATCH" ] || { echo "EMPTY-PATCH $PATCH"; exit 3; }
 ( cd "$W/repo" && patch -p1 $REV --no-backup-if-mismatch -s < "$PATCH" ) || { echo "PATCH-FAILED $PATCH"; exit 3; }
 if [ "$TESTS" = 1 ]; then
   if BASELINE_TIMEOUT=60 "$VERIF/selftest/baseline.py" "$W/repo" > "$W/tests.log" 2>&1; then echo "BASELINE-TESTS pass: $(head -1 "$W/tests.log")"; else echo "BASELINE-TESTS FAIL: $(tr '\n' ' ' < "$W/tests.log" | cut -c1-300)"; fi
